@@ -174,6 +174,19 @@ def gen_case(rng, tier, index):
         wl["auto_split"] = False
     wt = gen.gen_worktable(rng, vclass=vclass if vclass != "dirty" else "cent", limits=rng.choice(["tight", "loose", "loose"]),
                            need_trough=rng.random() < 0.8, small=True)
+    if rng.random() < 0.02:
+        # a few transfers of several hundred partitions per pair (litres through 10 uL tips)
+        wl["max_volume"] = rng.choice([10, 20, 37])
+        wl["auto_split"] = True
+        for d in wt:
+            d["max_volume"] = 1e6
+            d["initial"] = [[(3e5 if (x > 0 or rng.random() < 0.5) else 0.0) for x in row] for row in d["initial"]]
+            if d.get("names") is not None:
+                rows = 1 if d["kind"] == "trough" else d["rows"]
+                d["names"] = {f"{r},{c}": f"{d['name']}@{r}.{c}" for r in range(rows) for c in range(d["columns"]) if d["initial"][r][c] > 0}
+        gen.sync_twins(wt)
+        return {"worklist": wl, "worktable": wt, "n_ops": rng.choice([2, 3]), "opseed": rng.getrandbits(48),
+                "profile": "lockstep_deep", "vclass": "int", "deep": True}
     return {"worklist": wl, "worktable": wt, "n_ops": rng.choice([3, 5, 10, 20, 40]), "opseed": rng.getrandbits(48),
             "profile": "lockstep", "vclass": vclass}
 
